@@ -172,4 +172,14 @@ def variants(program):
                        {'WRITE-INVALIDATE'},
                        note='seeded C14-2: an interrupted write keeps the '
                             'DONE entry of an earlier run alive'))
+    def path_open_method(tree):
+        fun = find_func(tree, 'Env.to_file')
+        return replace_first(
+            fun, lambda n: isinstance(n, ast.Call) and txt(n.func) == 'open'
+            and n.args and txt(n.args[0]) == 'path',
+            lambda n: ast.Call(func=ast.Attribute(
+                value=parse_stmts('Path(path)')[0].value, attr='open',
+                ctx=ast.Load()), args=n.args[1:], keywords=n.keywords))
+    out.append(Variant('twin-destination-opened-through-pathlib', 'twin',
+                       edit_module(program, envmod, path_open_method)))
     return out
